@@ -140,6 +140,49 @@ def closure_programs():
     return [(tag, [OBS_DECL] + p) for tag, p in ps]
 
 
+def function_names():
+    """what a function's own name denotes: inside its body, inside closures nested in it (one and two deep), when a
+    parameter, a local or an inner function has the same name, for fn statements and for let-bound literals"""
+    out = []
+    le = lambda a, b: bin_("<=", a, b)
+    sub1 = lambda x: bin_("-", ident(x), I(1))
+
+    def define(kind, name, params, body):
+        return fndef(name, params, body) if kind == "fn" else let(name, fn(params, body))
+
+    for kind in ("fn", "let"):
+        # recursion through the own name, directly and from closures nested one and two deep
+        out.append(("%s direct" % kind, [define(kind, "f", ["n"], [expr(if_(le(ident("n"), I(0)), [expr(I(100))],
+                    [expr(bin_("+", I(1), call("f", sub1("n"))))]))]), obs(call("f", I(3)))]))
+        out.append(("%s via-closure" % kind, [define(kind, "f", ["n"], [
+            let("h", fn(["k"], [expr(if_(le(ident("k"), I(0)), [expr(I(50))], [expr(call("f", sub1("k")))]))])),
+            expr(if_(le(ident("n"), I(0)), [expr(I(7))], [expr(bin_("+", I(1), call("h", ident("n"))))]))]),
+            obs(call("f", I(2))), obs(call("f", I(0)))]))
+        out.append(("%s via-closure-2-deep" % kind, [define(kind, "f", ["n"], [
+            let("h", fn(["k"], [let("g", fn(["j"], [expr(if_(le(ident("j"), I(0)), [expr(I(50))], [expr(call("f", sub1("j")))]))])),
+                                expr(call("g", ident("k")))])),
+            expr(if_(le(ident("n"), I(0)), [expr(I(7))], [expr(bin_("+", I(1), call("h", ident("n"))))]))]),
+            obs(call("f", I(2)))]))
+        out.append(("%s returned-closure-calls-maker" % kind, [define(kind, "mk", ["n"], [
+            expr(fn([], [expr(if_(le(ident("n"), I(0)), [expr(I(9))], [expr(call(call("mk", sub1("n"))))]))]))]),
+            obs(call(call("mk", I(2)))), obs(call(call("mk", I(0))))]))
+        # a parameter / local / inner function with the function's own name hides it
+        out.append(("%s param-same-name" % kind, [define(kind, "pick", ["pick", "other"], [
+            expr(if_(ident("pick"), [expr(ident("other"))], [expr(I(0))]))]),
+            obs(call("pick", lit(vbool(False)), I(7))), obs(call("pick", lit(vbool(True)), I(7))), obs(call("pick", I(5), I(8)))]))
+        out.append(("%s param-same-name-arith" % kind, [define(kind, "w", ["w"], [expr(bin_("+", ident("w"), I(1)))]),
+                    obs(call("w", I(41)))]))
+        out.append(("%s param-same-name-captured" % kind, [define(kind, "q", ["q"], [expr(fn([], [expr(bin_("*", ident("q"), I(2)))]))]),
+                    obs(call(call("q", I(21))))]))
+        out.append(("%s local-same-name" % kind, [define(kind, "v", ["n"], [let("v", bin_("+", ident("n"), I(1))), expr(ident("v"))]),
+                    obs(call("v", I(1))), obs(call("v", I(2)))]))
+        out.append(("%s inner-fn-same-name" % kind, [define(kind, "u", ["n"], [
+            fndef("u", ["m"], [expr(bin_("*", ident("m"), I(10)))]), expr(call("u", ident("n")))]), obs(call("u", I(3)))]))
+        out.append(("%s sibling-sees-both" % kind, [define(kind, "a1", ["n"], [expr(bin_("+", ident("n"), I(1)))]),
+                    define(kind, "a2", ["n"], [expr(bin_("+", call("a1", ident("n")), call("a1", I(10))))]), obs(call("a2", I(1)))]))
+    return [("fn-name " + t, [OBS_DECL] + p) for t, p in out]
+
+
 def run(rep, tier, seed):
     core.build_harness()
     nmax = 4 if tier == "quick" else 5
@@ -167,7 +210,7 @@ def run(rep, tier, seed):
         wprog = pre + [fndef("w", params, inner + [expr(I(0))]), obs(call("w", *([I(800)] if params else [])))]
         items.append({"id": "s%d" % n, "prog": wprog, "tag": "skeleton-in-function"})
         n += 1
-    for tag, prog in closure_programs():
+    for tag, prog in closure_programs() + function_names():
         items.append({"id": "c%d" % n, "prog": prog, "tag": tag})
         n += 1
     rnd = random.Random(seed)
@@ -183,7 +226,8 @@ def run(rep, tier, seed):
     rep.cov["rule"] = ("all scope skeletons with at most %d items from {let x, use x, assign x, block, function (called "
                        "at once and again at the end of its block), if-block} nested to depth 2, with and without an "
                        "outer binding of x, that contain at least one use / assignment / function, each at top level and as "
-                       "the body of a function (x unbound outside / global / parameter); hand-written closure "
+                       "the body of a function (x unbound outside / global / parameter); what a function's own name denotes (recursion "
+                       "through nested closures, parameters / locals / inner functions of the same name; fn and let forms); hand-written closure "
                        "families; seeded random programs with shadowing; distinct = distinct source texts" % nmax)
     rep.cov["exhaustive"] = False
     for it in items[5:7]:
